@@ -25,6 +25,7 @@ func collect(repo string, f *facts) {
 	xformFacts(f)
 	cfgFacts(f)
 	clientFacts(f)
+	bufferFacts(f)
 }
 
 // ---- C16: Must… / panic sites in constructors ----
@@ -837,4 +838,129 @@ func clientFacts(f *facts) {
 	for _, k := range []string{"session.onChunkAcked", "client.onChunkAcked", "client.onChunkLeft", "client.onFinished"} {
 		f.prs["client_callback_sites"] = append(f.prs["client_callback_sites"], [2]string{k, strconv.FormatInt(cnt[k], 10)})
 	}
+}
+
+// ---- C03 / C04: hybrid buffer ----
+func bufferFacts(f *facts) {
+	const buf = "buffer/hybridbuffer/bufferer.go"
+	const man = "buffer/hybridbuffer/chunkmanager.go"
+	const op = "buffer/hybridbuffer/chunkoperator.go"
+	const feed = "buffer/hybridbuffer/outputfeeder.go"
+	f.note["buffer_accept_select"] = "bufferer.Accept: the cases of its only select (communication clause; what the default branch calls)"
+	f.note["buffer_spill_condition"] = "bufferer.Accept: condition of the unload branch"
+	var sel, spill []string
+	if fd := fn(buf, "Accept", "bufferer"); fd != nil {
+		nsel := 0
+		inspect(fd.Body, func(n ast.Node) bool {
+			switch x := n.(type) {
+			case *ast.SelectStmt:
+				nsel++
+				for _, c := range x.Body.List {
+					cc := c.(*ast.CommClause)
+					if cc.Comm != nil {
+						sel = append(sel, "case "+src(cc.Comm))
+					} else {
+						d := "default:"
+						inspect(&ast.BlockStmt{List: cc.Body}, func(m ast.Node) bool {
+							if ce, ok := m.(*ast.CallExpr); ok && strings.HasSuffix(src(ce.Fun), ".OnChunkDropped") {
+								d += " OnChunkDropped"
+							}
+							return true
+						})
+						sel = append(sel, d)
+					}
+				}
+			case *ast.IfStmt:
+				if strings.Contains(src(x.Body), "UnloadOrDropChunk") {
+					spill = append(spill, src(x.Cond))
+				}
+			case *ast.SendStmt:
+			case *ast.UnaryExpr:
+				if x.Op == token.ARROW {
+					sel = append(sel, "receive outside select: "+src(x))
+				}
+			}
+			return true
+		})
+		if nsel != 1 {
+			sel = append(sel, fmt.Sprintf("selects=%d", nsel))
+		}
+	}
+	f.strs["buffer_accept_select"] = sel
+	f.strs["buffer_spill_condition"] = spill
+	f.note["buffer_start_calls"] = "bufferer.Start: statements in order"
+	var start []string
+	if fd := fn(buf, "Start", "bufferer"); fd != nil {
+		for _, st := range fd.Body.List {
+			start = append(start, src(st))
+		}
+	}
+	f.strs["buffer_start_calls"] = start
+	f.note["buffer_channel_caps"] = "capacity of inputChannel (newBufferer) and of outputChannel (newOutputFeeder)"
+	var caps []string
+	for _, loc := range [][2]string{{buf, "newBufferer"}, {feed, "newOutputFeeder"}} {
+		if fd := fn(loc[0], loc[1], ""); fd != nil {
+			inspect(fd.Body, func(n ast.Node) bool {
+				if c, ok := n.(*ast.CallExpr); ok && src(c.Fun) == "make" && len(c.Args) == 2 && src(c.Args[0]) == "chan base.LogChunk" {
+					caps = append(caps, src(c.Args[1]))
+				}
+				return true
+			})
+		}
+	}
+	f.strs["buffer_channel_caps"] = caps
+	f.note["buffer_quota_condition"] = "chunkOperator.UnloadChunk: the condition that refuses the write (must precede WriteFileAt)"
+	var quota []string
+	if fd := fn(op, "UnloadChunk", "chunkOperator"); fd != nil {
+		wrote := false
+		inspect(fd.Body, func(n ast.Node) bool {
+			switch x := n.(type) {
+			case *ast.CallExpr:
+				if src(x.Fun) == "util.WriteFileAt" {
+					wrote = true
+				}
+			case *ast.IfStmt:
+				if strings.Contains(src(x.Cond), "maxTotalBytes") {
+					t := src(x.Cond)
+					if wrote {
+						t = "after-write: " + t
+					}
+					if !endsInReturn(x.Body) {
+						t = "no-return: " + t
+					}
+					quota = append(quota, t)
+				}
+			}
+			return true
+		})
+	}
+	f.strs["buffer_quota_condition"] = quota
+	f.note["buffer_leftover_calls"] = "chunkManager.OnChunkLeftover: how the chunk is saved (call whose result guards the early return)"
+	var left []string
+	if fd := fn(man, "OnChunkLeftover", "chunkManager"); fd != nil {
+		inspect(fd.Body, func(n ast.Node) bool {
+			if c, ok := n.(*ast.CallExpr); ok && (strings.HasSuffix(src(c.Fun), "UnloadChunk") || strings.HasSuffix(src(c.Fun), "UnloadOrDropChunk")) {
+				left = append(left, src(c.Fun))
+			}
+			return true
+		})
+	}
+	f.strs["buffer_leftover_calls"] = left
+	f.note["buffer_save_everything"] = "outputFeeder.saveEverything: what is saved, in order"
+	var save []string
+	if fd := fn(feed, "saveEverything", "outputFeeder"); fd != nil {
+		for _, st := range fd.Body.List {
+			switch x := st.(type) {
+			case *ast.RangeStmt:
+				if strings.Contains(src(x.Body), "UnloadOrDropChunk") {
+					save = append(save, "range "+src(x.X))
+				}
+			case *ast.IfStmt:
+				if strings.Contains(src(x.Body), "UnloadOrDropChunk(&lastInputChunk)") {
+					save = append(save, "lastInputChunk")
+				}
+			}
+		}
+	}
+	f.strs["buffer_save_everything"] = save
 }
